@@ -346,3 +346,66 @@ package fpgo
 //@   ensures once: tr_len == old(tr_len)+1 && tr_kind[old(tr_len)] == 1 && tr_fn[old(tr_len)] == fn
 //@   ensures args-in-order: tr_args[old(tr_len)][0] == a && tr_args[old(tr_len)][1] == b && tr_args[old(tr_len)][2] == c && tr_args[old(tr_len)][3] == d && tr_args[old(tr_len)][4] == e && tr_args[old(tr_len)][5] == f && tr_args[old(tr_len)][6] == boxed(args)
 //@   ensures value: r0 == tr_ress[old(tr_len)][0]
+
+// ===================================================================================================
+// C20 - Trampoline: iterates its step - each step on the previous step's result, the first on the input - until the first step
+// that reports an error (result nil, that error) or done (that step's result, nil error); no step runs after that one.
+//@ func Trampoline
+//@   prop C20
+//@   opt callbacks=effectful
+//@   opt effects=trace
+//@   ghost it Int
+//@   ghostinit it = 0
+//@   requires fn != nil
+//@   ensures steps: tr_len > old(tr_len) && forall(k, old(tr_len), tr_len, tr_kind[k] == 1 && tr_fn[k] == fn)
+//@   ensures first: tr_args[old(tr_len)][0] == boxed(input)
+//@   ensures chain: forall(k, old(tr_len)+1, tr_len, tr_args[k][0] == tr_ress[k-1][0])
+//@   ensures continued: forall(k, old(tr_len), tr_len-1, tr_err[k] == nil && tr_ress[k][1] == boxed(false))
+//@   ensures stop-error: tr_err[tr_len-1] != nil ==> r0 == nil && r1 == tr_err[tr_len-1]
+//@   ensures stop-done: tr_err[tr_len-1] == nil ==> tr_ress[tr_len-1][1] == boxed(true) && boxed(r0) == tr_ress[tr_len-1][0] && r1 == nil
+//@ func Trampoline loop 0
+//@   ghostset it = it + 1
+//@   invariant count: it >= 0 && tr_len == old(tr_len) + it && forall(k, old(tr_len), tr_len, tr_kind[k] == 1 && tr_fn[k] == fn)
+//@   invariant current: (it == 0 ==> result == input) && (it > 0 ==> boxed(result) == tr_ress[tr_len-1][0] && tr_args[old(tr_len)][0] == boxed(input))
+//@   invariant chain: forall(k, old(tr_len)+1, tr_len, tr_args[k][0] == tr_ress[k-1][0])
+//@   invariant continued: forall(k, old(tr_len), tr_len, tr_err[k] == nil && tr_ress[k][1] == boxed(false))
+
+// ===================================================================================================
+// C20 - CurryDef: a Call on a curry that is not done appends exactly its arguments to the accumulated ones and invokes the
+// function exactly once with the curry itself and all arguments so far, storing its value as the result; a Call on a done
+// curry changes nothing and calls nothing.  args/result are only touched while callM is held, and the decision
+// "not done" is taken inside the same critical section as the update it guards (so concurrent Calls are serial and a
+// MarkDone that happened before a Call got the lock is honoured).
+//@ func CurryNewGenerics
+//@   prop C20
+//@   opt callbacks=effectful
+//@   opt effects=trace
+//@   ensures lazy: tr_len == old(tr_len)
+//@   ensures made: r0 != nil && fresh(r0) && r0.fn == fn && len(r0.args) == 0 && !r0.isDone
+//@ func (CurryDef).Call
+//@   prop C20
+//@   opt callbacks=effectful
+//@   opt effects=trace
+//@   opt lockguard=args:callM;result:callM
+//@   opt decide-under=isDone:callM
+//@   modifies currySelf, currySelf.args
+//@   requires currySelf != nil && currySelf.fn != nil
+//@   ensures self: r0 == currySelf
+//@   ensures done-frozen: old(currySelf.isDone) ==> tr_len == old(tr_len) && currySelf.args == old(currySelf.args) && currySelf.result == old(currySelf.result)
+//@   ensures once: !old(currySelf.isDone) ==> tr_len == old(tr_len)+1 && tr_kind[old(tr_len)] == 1 && tr_fn[old(tr_len)] == currySelf.fn
+//@   ensures accumulated: !old(currySelf.isDone) ==> tr_args[old(tr_len)][0] == boxed(currySelf) && tr_args[old(tr_len)][1] == boxed(currySelf.args)
+//@   ensures appended: !old(currySelf.isDone) ==> len(currySelf.args) == old(len(currySelf.args)) + len(args) && forall(k, 0, old(len(currySelf.args)), currySelf.args[k] == old(currySelf.args[k])) && forall(k, 0, len(args), currySelf.args[old(len(currySelf.args))+k] == old(args[k]))
+//@   ensures result-stored: !old(currySelf.isDone) ==> currySelf.result == tr_ress[old(tr_len)][0]
+//@ func (CurryDef).MarkDone
+//@   prop C20
+//@   modifies currySelf
+//@   requires currySelf != nil
+//@   ensures done: currySelf.isDone && currySelf.args == old(currySelf.args) && currySelf.result == old(currySelf.result)
+//@ func (CurryDef).IsDone
+//@   prop C20
+//@   requires currySelf != nil
+//@   ensures def: r0 == currySelf.isDone
+//@ func (CurryDef).Result
+//@   prop C20
+//@   requires currySelf != nil
+//@   ensures def: r0 == currySelf.result
